@@ -707,8 +707,8 @@ class QvmCpu:
 
         if a.type != b.type:
             self.trap(TrapCode.TYPE_MISMATCH,
-                      a.type,
-                      b.type)
+                      expected=a.type,
+                      got=b.type)
 
         if a.value == b.value:
             result = 0
@@ -865,7 +865,7 @@ class QvmCpu:
         if not value.type.is_numeric:
             self.trap(TrapCode.TYPE_MISMATCH,
                       expected='numeric',
-                      got=a.type)
+                      got=value.type)
         result = -1 if value.value >= 0 else 0
         self.push(CellType.INTEGER, result)
 
@@ -875,7 +875,7 @@ class QvmCpu:
         if not value.type.is_numeric:
             self.trap(TrapCode.TYPE_MISMATCH,
                       expected='numeric',
-                      got=a.type)
+                      got=value.type)
         result = -1 if value.value > 0 else 0
         self.push(CellType.INTEGER, result)
 
@@ -1041,7 +1041,7 @@ class QvmCpu:
         if not value.type.is_numeric:
             self.trap(TrapCode.TYPE_MISMATCH,
                       expected='numeric',
-                      got=a.type)
+                      got=value.type)
         result = -1 if value.value <= 0 else 0
         self.push(CellType.INTEGER, result)
 
@@ -1051,7 +1051,7 @@ class QvmCpu:
         if not value.type.is_numeric:
             self.trap(TrapCode.TYPE_MISMATCH,
                       expected='numeric',
-                      got=a.type)
+                      got=value.type)
         result = -1 if value.value < 0 else 0
         self.push(CellType.INTEGER, result)
 
@@ -1184,8 +1184,8 @@ class QvmCpu:
             self.trap(TrapCode.NULL_REFERENCE, scope='local', idx=idx)
         if value.type != CellType.REFERENCE:
             self.trap(TrapCode.TYPE_MISMATCH,
-                      expected_type=CellType.REFERENCE,
-                      got_type=value.type)
+                      expected=CellType.REFERENCE,
+                      got=value.type)
         self.push(CellType.REFERENCE, value.value)
 
     def _exec_readg_reference(self, idx):
@@ -1199,8 +1199,8 @@ class QvmCpu:
             self.trap(TrapCode.NULL_REFERENCE, scope='global', idx=idx)
         if value.type != CellType.REFERENCE:
             self.trap(TrapCode.TYPE_MISMATCH,
-                      expected_type=CellType.REFERENCE,
-                      got_type=value.type)
+                      expected=CellType.REFERENCE,
+                      got=value.type)
         self.push(CellType.REFERENCE, value.value)
 
     def _exec_refidx(self):
@@ -1209,8 +1209,8 @@ class QvmCpu:
 
         if not idx.type.is_integral:
             self.trap(TrapCode.TYPE_MISMATCH,
-                      expected_type='integral',
-                      got_type=idx.type)
+                      expected='integral',
+                      got=idx.type)
 
         idx = idx.value
         ref.index += idx
@@ -1234,7 +1234,7 @@ class QvmCpu:
         if not value.type.is_numeric:
             self.trap(TrapCode.TYPE_MISMATCH,
                       expected='numeric',
-                      got=a.type)
+                      got=value.type)
         v = value.value
         sign = 1 if v > 0 else -1 if v < 0 else 0
         self.push(value.type, value.type.py_type(sign))
@@ -1331,7 +1331,7 @@ class QvmCpu:
         else:
             if length.type != CellType.INTEGER:
                 self.trap(TrapCode.TYPE_MISMATCH,
-                          expected=Type.INTEGER,
+                          expected=CellType.INTEGER,
                           got=length.type)
             length = length.value
 
